@@ -192,7 +192,7 @@ class StepRun:
             self.token_values[label] = (v, None)
         else:
             v, node, tag, nv = B.sym_value(self.P, fresh("val"))
-            self.ctx.assume(z3.And(tag >= 0, tag < nv))
+            self.ctx.add(z3.And(tag >= 0, tag < nv))   # range of a fresh variable: cannot make the path infeasible
             if label in self.constrain:
                 self.constrain[label](node, tag)
             self.token_values[label] = (v, node)
